@@ -4,8 +4,14 @@
 //! reference-signed RRsets, `RRSIG::from_rrset` output checked by the reference verifier.
 //! Oracle: `refsign` (independent; ring directly).
 //!
+//! Third-party direction beyond what ring can sign (RSA/SHA-1, RSA keys of 1024..4096 bits,
+//! unusual exponents; also ECDSA/Ed25519 made by another implementation): known-answer vectors
+//! produced once with the OpenSSL CLI, `kat.rs` + `data/kat/` (rules `third-party-rejected`,
+//! `third-party-forgery-accepted`).
+//!
 //! Don't-cares: Labels greater than the owner's label count (must be an error; checked as such).
 
+mod kat;
 mod refsign;
 
 use std::time::Duration;
@@ -597,12 +603,40 @@ impl Checker<'_> {
 }
 
 fn main() {
+    // generator mode (used once by data/kat/gen.py, never by the driver):
+    //   c05 --kat-emit DIR --kat-keys KEYS.json
+    let args: Vec<String> = std::env::args().collect();
+    if let Some(i) = args.iter().position(|a| a == "--kat-emit") {
+        let dir = args.get(i + 1).cloned().unwrap_or_default();
+        let keys = args.iter().position(|a| a == "--kat-keys").and_then(|j| args.get(j + 1)).cloned().unwrap_or_default();
+        match kat::emit(&dir, &keys) {
+            Ok(n) => {
+                println!("kat-emit: {n} cases written to {dir}");
+                std::process::exit(0)
+            }
+            Err(e) => {
+                eprintln!("kat-emit: {e}");
+                std::process::exit(3)
+            }
+        }
+    }
     let ctx = Ctx::from_args("C05");
     mon::install_panic_monitor();
     let mut rep = Reporter::new(&ctx);
     let keys = make_keys();
 
     if let Some(w) = ctx.replay_case() {
+        if w["case"]["kat"].is_object() {
+            // witness of the known-answer part: self-contained (RRset, RRSIG, DNSKEY, signature)
+            let Some(v) = kat::Vector::from_json(&w["case"]) else {
+                eprintln!("bad known-answer case");
+                std::process::exit(3)
+            };
+            let mut r = Rng::new(fnv64(w["case"].to_string().as_bytes()));
+            let mut ck = Checker { rep: &mut rep };
+            ck.check_kat(&v, &mut r);
+            rep.replay_finish();
+        }
         let Some(c) = Case::from_json(&w["case"]) else {
             eprintln!("bad case");
             std::process::exit(3)
@@ -637,6 +671,10 @@ fn main() {
 
     let mut rng = ctx.rng("main");
     let mut ck = Checker { rep: &mut rep };
+
+    // known-answer third-party signatures (OpenSSL; RSA 1024..4096 bits, SHA-1/256/512, ECDSA,
+    // Ed25519): cheap, every run, both tiers
+    kat::run(&ctx, &mut ck);
 
     // pinned cases: the probed examples (MX case order, TTL order, duplicate)
     if ctx.shard == 0 {
